@@ -747,8 +747,8 @@ def run(ctx):
     nconf = conformance()
     if ctx.thorough:
         budget, bound = 3, 3
-        multi = [(pr, 2, 3, 400000) for pr in PAIRS]
-        multi += [(tr, 2, 2, 400000) for tr in TRIPLES]
+        multi = [(pr, 2, 3, 150000) for pr in PAIRS]
+        multi += [(tr, 2, 2, 150000) for tr in TRIPLES]
         nparts = 8
     else:
         budget, bound = 2, 2
